@@ -33,7 +33,7 @@ BOUNDS = {
              "native/slim values, both storage modes: symbolic reals",
     "thorough": "all masks of every shape with H*W <= 12 (kernels and classes); 1D masks of length <= 8",
     "merged": "additionally the slim/native/index kernels with the mask bits left symbolic (merge interpreter, ONE path = all 2^(H*W) masks "
-              "and all real values): shape 3x4 (quick) plus 4x4, 5x5 (thorough)",
+              "and all real values): shape 3x4 (quick) plus 4x4, 3x5 (thorough; 5x5 did not finish within 30 min)",
 }
 OUTSIDE = ["shapes with more than 12 pixels", "float64 rounding (none arises: the code only copies and multiplies by 0/1)"]
 STUBS = []
@@ -257,20 +257,22 @@ def case_1d(ctx, N):
 BODIES = {"case_kernels_2d": body_kernels_2d, "case_classes_2d": body_classes_2d, "case_1d": body_1d}
 
 
-def cases(tier):
+def _cases(tier):
     cap_k, cap_c, cap_1 = (9, 8, 6) if tier == "quick" else (12, 12, 8)
     out = []
     for H in range(1, 13):
         for W in range(1, 13):
-            if H * W <= cap_k:
-                out.append(("case_kernels_2d", {"H": H, "W": W}))
-            if H * W <= cap_c:
-                out.append(("case_classes_2d", {"H": H, "W": W}))
+            n = H * W
+            sp = {"split": 0 if n < 10 else (4 if n <= 11 else 6)}
+            if n <= cap_k:
+                out.append(("case_kernels_2d", {"H": H, "W": W}, sp))
+            if n <= cap_c:
+                out.append(("case_classes_2d", {"H": H, "W": W}, sp))
     for N in range(1, cap_1 + 1):
         out.append(("case_1d", {"N": N}))
     out.sort(key=lambda c: -(c[1].get("H", 1) * c[1].get("W", c[1].get("N", 1))))
-    for (H, W) in ([(3, 4)] if tier == "quick" else [(3, 4), (4, 4), (5, 5)]):
-        out.append(("case_merged", {"H": H, "W": W}, {"timeout_ms": 60000 if tier == "quick" else 600000}))
+    for (H, W) in ([(3, 4)] if tier == "quick" else [(3, 4), (4, 4), (3, 5)]):
+        out.append(("case_merged", {"H": H, "W": W}, {"timeout_ms": 60000 if tier == "quick" else 180000}))
     return out
 
 
@@ -362,3 +364,8 @@ def case_merged(ctx, H, W):
 
 
 BODIES["case_merged"] = body_merged
+
+
+def cases(tier):
+    cs = _cases(tier)
+    return [c for c in cs if c[0] == "case_merged"] + [c for c in cs if c[0] != "case_merged"]     # long single-path cases first
